@@ -279,7 +279,7 @@ def solve_affine_loop(spec, xvals):
     return [rhs[i] / M[i][i] for i in range(n)]
 
 
-def field_input_system(rng, name='fld'):
+def field_input_system(rng, name='fld', field_norm=None):
     """one component with a scalar input and a FIELD-QUANTITY input (SVD-compressed, 2 latent coefficients) -> scalar output.
     The construction uses its own deterministic data (no global random state)."""
     from amisc import Component, System, Variable
@@ -288,7 +288,7 @@ def field_input_system(rng, name='fld'):
     rs = np.random.RandomState(rng.randint(0, 10 ** 6))
     a = rs.rand(15); b = 1.0 + rs.rand(15)
     data = a[:, None] * np.sin(grid) + b[:, None] * np.cos(grid)       # (samples, dof)
-    p = Variable('p', compression=SVD(rank=2, data_matrix=data.T, coords=grid))
+    p = Variable('p', compression=SVD(rank=2, data_matrix=data.T, coords=grid), norm=field_norm)
     d = Variable('d', distribution='U(0, 1)')
     amp = Variable('amp', domain=(-20.0, 20.0))
 
